@@ -63,10 +63,10 @@ def run(run):
     C.build_driver()
     h, d = C.Harness(), C.Driver()
     rng = run.rng
-    N = 10 if run.tier == "quick" else 12
+    N = 10 if run.depth == "quick" else 12
     sents = g.enumerate(N, Q.reduce_default)
     alphabet = sorted({k for s in sents for k in s} | {"'LIKE'", "'in'", "'['", "']'", "'}'", "NUMBER", "'-'", "' in '"})
-    per = 60 if run.tier == "quick" else 120
+    per = 60 if run.depth == "quick" else 120
     cases = {}
     for s in sents:
         cases[s] = True
@@ -111,7 +111,7 @@ def run(run):
         run.broken_obligation("correspondence:accept", "Lean model and ParseQuery disagree on %d inputs, e.g. %r" % (len(mism_model), mism_model[:3]))
     # --- structure: random longer sentences with real identifiers and layouts
     from vlib import querygen as QG
-    nq = 300 if run.tier == "quick" else 3000
+    nq = 300 if run.depth == "quick" else 3000
     smism = []
     for i in range(nq):
         q = QG.random_query(rng, structure_only=True)
